@@ -302,6 +302,18 @@ class Connection(object):
         self._logger.debug('Received %d octets (%s)',
                            len(data), self._conn_name())
         self.recv_raw(data)
+
+        # A TLS record larger than the chunk leaves decrypted octets inside
+        # the TLS object, where no readiness notification will ever show them
+        while self.get_app_socket() is sock and getattr(sock, 'pending', lambda: 0)() > 0:
+            try:
+                data = sock.recv(self.CHUNK_SIZE)
+            except (socket.error, ssl.SSLWantReadError):
+                break
+            if not data:
+                self.close()
+                return False
+            self.recv_raw(data)
         return True
 
     def recv_raw(self, data):
